@@ -54,6 +54,12 @@ def gen(tier, rng):
                    ["fixed"] if fault in ("dist_sym_30", "ll_sym_286") else ["stored"] if fault == "len_nlen" else ["fixed", "dynamic"]
             st = defgen.too_far_stream(rng) if fault == "dist_too_far" else defgen.make_stream(rng, plan, fault=fault, fault_block=0 if fault != "btype3" else rng.choice([0, 1]))
             runs(st, 0, {"family": "fault:" + fault, "expect_ret": CODE[cls]}, inflfam.KERNEL_CPUS)
+    # undecodable data under an incomplete code set: a deep code set with its last code dropped, and that unassigned code used, in the
+    # second block of a stream whose first block filled the decoder's lookup tables (stale entries); also on a reused decoder state
+    for fault in ("use_undefined_dist", "use_undefined_ll"):
+        for rep in range(6 if tier == "quick" else 40):
+            st = defgen.make_stream(rng, ["dynamic15", "dynamic15"] if rep % 2 else ["dynamic15", "fixed", "dynamic15"], fault=fault, fault_block=1 if rep % 2 else 2)
+            runs(st, 0, {"family": "fault:" + fault}, inflfam.KERNEL_CPUS)
     # wrapper faults
     text = bytes(igz.corpus(rng, "text", 200)); raw = zlib.compress(text)[2:-4]
     g = bytearray(inflfam.wrap_stream(1, raw, text))
